@@ -40,8 +40,8 @@ func fullPattern(ps *progState, op *Op) (string, []string) {
 	return f.full + op.Pattern, append(append([]string{}, op.MW...), f.ms...)
 }
 
-var facPrefixes = []string{"/api", "/api/", "", "/v{ver:\\d+}", "/u/{uid", "/admin", "/s/", "/a/b"}
-var facRest = []string{"/users", "/users/{id}", "}/posts", "/{id}", "/{name}/log", "/x", "x", "/p/{page:\\d+}", "/a", "/b", "/c", "/d", "/e", "/f"}
+var facPrefixes = []string{"/", "/api", "/api/", "", "/v{ver:\\d+}", "/u/{uid", "/admin", "/s/", "/a/b"}
+var facRest = []string{"", "/users", "/users/{id}", "}/posts", "/{id}", "/{name}/log", "/x", "x", "/p/{page:\\d+}", "/a", "/b", "/c", "/d", "/e", "/f"}
 
 func genProgram(r *Rng, group bool) *World {
 	w := &World{}
